@@ -40,8 +40,8 @@ func plans() map[string][]streamPlan {
 		"C07": {{"truth", truthCount(), truthCount()}, {"truth-nest", 10000, 500000}, {"pairs", pairCount(), pairCount()}},
 		"C08": {{"slice", sliceCount(6), sliceCount(9)}, {"slice-big", sliceBigCount() + 5000, sliceBigCount() + 300000}, {"typed", 3000, 60000}},
 		"C09": {{"fn", 40000, 800000}, {"expr", 5000, 100000}, {"edge", edgeCount(), edgeCount()}, {"fnseq", 6000, 100000}, {"pairs", pairCount(), pairCount()}, {"size", sizeCount(), sizeCount()}},
-		"C10": {{"fnmatrix", matrixCount(3), matrixCount(4)}, {"fnseq", 15000, 300000}, {"expr", 5000, 100000}, {"pairs", 60000, pairCount()}},
-		"C11": {{"errctx", errCtxCount(true), errCtxCount(true)}, {"expr", 8000, 300000}, {"proj", 4000, 100000}, {"pairs", pairCount(), pairCount()}},
+		"C10": {{"fnmatrix", matrixCount(3), matrixCount(4)}, {"fnseq", 15000, 300000}, {"expr", 5000, 100000}, {"pairs", 60000, pairCount()}, {"bigerr", bigErrCount(), bigErrCount()}},
+		"C11": {{"errctx", errCtxCount(true), errCtxCount(true)}, {"expr", 8000, 300000}, {"proj", 4000, 100000}, {"pairs", pairCount(), pairCount()}, {"bigerr", bigErrCount(), bigErrCount()}},
 		"C13": {{"api", 3000, 120000}, {"expr", 4000, 100000}, {"pairs", 40000, pairCount()}, {"typed", 1500, 60000}},
 		"C14": {{"ident", identExhaustive(2) + 8000, identExhaustive(2) + 300000}, {"unquoted", unquotedCount(), unquotedCount()}, {"spelling", 5000, 100000}, {"jsoncodec", 4000, 100000}, {"edge", edgeCount(), edgeCount()}, {"size", sizeCount(), sizeCount()}},
 		"C15": {{"pipe", 15000, 400000}, {"subst", 10000, 300000}, {"depth", depthCount(), depthCount()}, {"pairs", pairCount(), pairCount()}, {"typed", 1500, 60000}},
